@@ -89,11 +89,17 @@ def backport_moved(ctx):
     target = mesh.vertices[vi]
     old_pos = np.array(target.position, dtype=object).copy()
     new_pos = old_pos + d * prog.size
-    target.move_to(new_pos)
+    before = {id(op): np.array(op.point_array, dtype=object).copy() for op in prog.ops}
+    if si % 2 == 0:
+        target.move_to(new_pos)
+    else:
+        target.translate(d * prog.size)   # modifies the vertex' position in place
     live = prog.live_ops
     blocks = list(mesh.blocks)
     owners = [op for op, b in zip(live, blocks) if any(v is target for v in b.vertices)]
-    before = {id(op): np.array(op.point_array, dtype=object).copy() for op in prog.ops}
+    # frame: the assembled mesh is a separate representation; nothing reaches the operations before backport()
+    ctx.prove("moving-a-vertex-leaves-the-operations-alone-until-backport",
+              all(ctx.eq(np.array(op.point_array, dtype=object), before[id(op)], tol=0) for op in prog.ops))
     flags_before = {id(op): [list(p.projected_to) for p in op.points] for op in prog.ops}
     want = {}
     for op, b in zip(live, blocks):
